@@ -72,7 +72,7 @@ def if_worker(hid):
     return res
 
 
-def check(ctx, rep: Report):
+def _check_main(ctx, rep: Report):
     rep.rules["C01.W"] = ("every WRITE event (attribute set/delete, raw set/delete, container mutation, "
                           "subscript store/delete) on every abstract path of each helper under _inplace=False "
                           "targets only objects allocated/copied inside the call; non-trivial = path with a write "
@@ -105,3 +105,11 @@ def check(ctx, rep: Report):
     if len(rep.obligations) < 19 * 2:
         from ..model import AnalysisError
         raise AnalysisError("C01: fewer obligations than helpers")
+
+
+def check(ctx, rep):
+    _check_main(ctx, rep)
+    # the caller's collection is only kept (and then prepared in place: known finding F-C01-1) when it already conforms;
+    # anything else is rebuilt into a new container
+    from .c04 import prepare_new_rule
+    prepare_new_rule(ctx, rep, "C01.NEW")
